@@ -1587,18 +1587,19 @@ fn render_wiki_link<'a, T>(
 /// an output buffer. Line breaks and soft breaks are represented as a single
 /// whitespace character.
 pub fn collect_text<'a>(node: &'a AstNode<'a>, output: &mut Vec<u8>) {
-    match node.data.borrow().value {
-        NodeValue::Text(ref literal) | NodeValue::Code(NodeCode { ref literal, .. }) => {
-            output.extend_from_slice(literal.as_bytes())
-        }
-        NodeValue::LineBreak | NodeValue::SoftBreak => output.push(b' '),
-        NodeValue::Math(NodeMath { ref literal, .. }) => {
-            output.extend_from_slice(literal.as_bytes())
-        }
-        _ => {
-            for n in node.children() {
-                collect_text(n, output);
+    // An explicit stack rather than recursion: inlines nest as deeply as the
+    // input asks for.
+    let mut stack = vec![node];
+    while let Some(node) = stack.pop() {
+        match node.data.borrow().value {
+            NodeValue::Text(ref literal) | NodeValue::Code(NodeCode { ref literal, .. }) => {
+                output.extend_from_slice(literal.as_bytes())
             }
+            NodeValue::LineBreak | NodeValue::SoftBreak => output.push(b' '),
+            NodeValue::Math(NodeMath { ref literal, .. }) => {
+                output.extend_from_slice(literal.as_bytes())
+            }
+            _ => stack.extend(node.reverse_children()),
         }
     }
 }
